@@ -39,6 +39,7 @@ def C01(c):
 
     c.corr("corpus", corpus("C01"), combos, judge=judge)
     algs = C.HEURISTIC_PART + ["cg", "ckk", "snp", "rnp", "dp"]
+    c.corr("random-ilp", C.random_part_cases(rng, ["ilp"], c.n(120, 1200), objs=C.OBJS5), combos_of(["list", "dict_str"], [PT]), judge=judge)
     ex = C.exhaustive_part_cases(algs, c.n(4, 5), c.n(3, 5), c.n([1, 2, 3, 4], [1, 2, 3, 4, 5]), rng)
     c.corr("exhaustive", ex, combos_of(["list", "dict_str"], [PT]), judge=judge)
     c.exhaustive_scopes.append(f"all multisets of 1..{c.n(4,5)} values from 0..{c.n(3,5)} x k in {c.n([1,2,3,4],[1,2,3,4,5])} "
@@ -141,7 +142,8 @@ def C02(c):
     rnd = C.random_part_cases(rng, ["dp", "ckk", "snp", "rnp"], c.n(150, 1500), objs=C.OBJS5)
     rnd = [e for e in rnd if not (e["alg"] == "rnp" and e["p"]["k"] >= 6)]
     c.corr("random", rnd, combos, judge=judge)
-    c.corr("random-cg", C.random_part_cases(rng, ["cg"], c.n(600, 6000), objs=C.OBJS3), combos_of(["list"], [PT]), judge=judge)
+    c.corr("random-cg", C.random_part_cases(rng, ["cg"], c.n(600, 6000), objs=C.OBJS5), combos_of(["list"], [PT]), judge=judge)
+    c.corr("random-ilp", C.random_part_cases(rng, ["ilp"], c.n(200, 2000), objs=C.OBJS5), combos_of(["list"], [PT]), judge=judge)
 
 
 # ------------------------------------------------------------------------------------------------ C04
@@ -190,7 +192,7 @@ def sums_view(ot, sums):
 
 
 def all_algs_cases(c, rng, per_alg, with_exact=True):
-    cs = C.random_part_cases(rng, C.HEURISTIC_PART + (["cg", "ckk", "snp", "rnp", "dp", "cbldm"] if with_exact else []), per_alg, objs=C.OBJS5)
+    cs = C.random_part_cases(rng, C.HEURISTIC_PART + (["cg", "ckk", "snp", "rnp", "dp", "cbldm", "ilp"] if with_exact else []), per_alg, objs=C.OBJS5)
     cs = [e for e in cs if not (e["alg"] == "rnp" and e["p"]["k"] >= 6)]
     cs += C.random_pack_cases(rng, C.PACKERS + ["bin_completion"], per_alg)
     cs += C.random_cover_cases(rng, C.COVERS, per_alg)
@@ -1174,10 +1176,544 @@ def C14(c):
     c.corr("random-cover", C.random_cover_cases(rng, C.COVERS, c.n(400, 5000), nmax=c.n(20, 40)), combos_of(["list"], [PT]), judge=judge)
 
 
-SUITES = {"C01": C01, "C02": C02, "C03": C03, "C04": C04, "C05": C05, "C06": C06, "C07": C07, "C08": C08, "C09": C09, "C10": C10, "C11": C11, "C12": C12, "C13": C13, "C14": C14, "C16": C16, "C20": C20}
+# ------------------------------------------------------------------------------------------------ C17
+class MipCapture:
+    """records the constraint system handed to the MIP solver by wrapping mip.Model.optimize (no source change)"""
+    def __init__(self):
+        import mip
+        self.mip = mip
+        self.orig = mip.Model.optimize
+        self.last = None
+        self.preprocess_off = False
 
-LEVELS = {}
-FINISH = {}
+    def __enter__(self):
+        cap = self
+
+        def wrapped(model, *a, **kw):
+            rows = []
+            for con in model.constrs:
+                e = con.expr
+                rows.append(({v.idx: float(cf) for v, cf in e.expr.items() if cf != 0}, e.sense, -float(e.const)))
+            ob = model.objective
+            cap.last = {"rows": rows, "objective": {v.idx: float(cf) for v, cf in ob.expr.items() if cf != 0}, "obj_const": float(ob.const),
+                        "sense": model.sense, "nvars": len(model.vars), "integer": all(v.var_type == "I" for v in model.vars)}
+            if cap.preprocess_off:
+                model.preprocess = 0
+            return cap.orig(model, *a, **kw)
+        self.mip.Model.optimize = wrapped
+        return self
+
+    def __exit__(self, *exc):
+        self.mip.Model.optimize = self.orig
+
+
+def _frac(s_):
+    from fractions import Fraction
+    n, d = s_.split("/")
+    return Fraction(int(n), int(d))
+
+
+def ilp_spec_line(sp):
+    cons = ",".join(f"{kind}:{cc}" for kind, cc in sp["cons"]) or "~"
+    return (f"k={sp['k']} vals={f_nats(sp['vals'])} copies={f_nats(sp['copies'])} weights={f_nats(sp['weights'])} "
+            f"obj={sp['obj']} cons={cons}")
+
+
+def ilp_call(sp, cap, names):
+    """the real call; returns (canonical answer, captured model)"""
+    from algs import objective_impl
+    items = {nm: v for nm, v in zip(names, sp["vals"])}
+    kw = {"objective": objective_impl(sp["obj"])}
+    if sp["copies_arg"] is not None:
+        kw["copies"] = sp["copies_arg"]
+    if sp["weights_arg"] is not None:
+        kw["weights"] = sp["weights_arg"]
+    if sp["cons"]:
+        def extra(sums, cons=sp["cons"]):
+            res = []
+            for kind, cc in cons:
+                res.append(sums[0] == cc if kind == "seq" else (sums[-1] <= cc if kind == "lle" else sums[0] >= cc))
+            return res
+        kw["additional_constraints"] = extra
+    cap.last = None
+    try:
+        r = prtpy.partition(algorithm=prt.ilp, numbins=sp["k"], items=items, outputtype=out.PartitionAndSumsTuple, **kw)
+        got = {"sums": [num(x) for x in r[0]], "bins": [list(b) for b in r[1]]}
+    except Exception as e:      # noqa
+        got = {"error": exc_name(e)}
+    return got, cap.last
+
+
+def C17(c):
+    """ILP options (copies, weights, constraints) are honoured; sums come out ascending"""
+    rng = c.rng
+    from fractions import Fraction
+    specs = []
+
+    def mk(k, vals, copies_arg, weights_arg, obj_, cons):
+        n = len(vals)
+        copies = [copies_arg] * n if isinstance(copies_arg, int) else (list(copies_arg) if copies_arg is not None else [1] * n)
+        weights = list(weights_arg) if weights_arg is not None else [1] * k
+        return {"k": k, "vals": list(vals), "copies": copies, "weights": weights, "obj": obj_, "cons": cons,
+                "copies_arg": copies_arg, "weights_arg": weights_arg}
+
+    for sp in corpus("C17"):
+        specs.append(mk(sp["k"], sp["vals"], sp.get("copies_arg"), sp.get("weights_arg"), sp["obj"], [tuple(x) for x in sp.get("cons", [])]))
+    for _ in range(c.n(260, 2500)):
+        k = rng.choice([1, 2, 2, 3, 3, 4])
+        n = rng.randint(1, 5 if k <= 3 else 4)
+        vals = [rng.choice([rng.randint(0, 9), rng.randint(1, 30), rng.randint(1, 200)]) for _ in range(n)]
+        r = rng.random()
+        copies_arg = None if r < 0.45 else (rng.choice([1, 2, 2]) if r < 0.7 else [rng.choice([0, 1, 1, 2]) for _ in range(n)])
+        r = rng.random()
+        weights_arg = None if r < 0.5 else ([rng.choice([1, 2, 3, 5])] * k if r < 0.65 else [rng.choice([1, 1, 2, 3, 4, 10]) for _ in range(k)])
+        o = rng.choice(C.OBJS5)
+        cons = []
+        if rng.random() < 0.4:
+            total = sum(v * cp for v, cp in zip(vals, [copies_arg] * n if isinstance(copies_arg, int) else (copies_arg or [1] * n)))
+            guess = rng.choice([0, total // max(k, 1), total // (2 * max(k, 1)), rng.randint(0, total + 1), total, vals[0]])
+            cons = [(rng.choice(["seq", "lle", "sge"]), int(guess))]
+        specs.append(mk(k, vals, copies_arg, weights_arg, o, cons))
+    lines = [ilp_spec_line(sp) for sp in specs]
+    rows_m = model_query(["ilp_rows " + l for l in lines])
+    opts_m = model_query(["ilp_opt " + l for l in lines])
+    point_reqs, ctx = [], []
+    with MipCapture() as cap:
+        for sp, line, rm, om in zip(specs, lines, rows_m, opts_m):
+            n, k = len(sp["vals"]), sp["k"]
+            names = [f"i{j}" for j in range(n)]
+            label = dict({kk_: sp[kk_] for kk_ in ("k", "vals", "obj", "cons", "copies_arg", "weights_arg")}, alg="ilp", request="ilp_opt " + line)
+            cap.preprocess_off = False
+            got, model = ilp_call(sp, cap, names)
+            c.evaluations += 1; c.corr_cases += 1
+            c.stats["ilp"]["cases"] += 1
+            c.stats["ilp"][f"k={k}"] += 1
+            c.stats["ilp"]["copies:" + ("default" if sp["copies_arg"] is None else "scalar" if isinstance(sp["copies_arg"], int) else "per-item")] += 1
+            c.stats["ilp"]["weights:" + ("none" if sp["weights_arg"] is None else "equal" if len(set(sp["weights"])) == 1 else "unequal")] += 1
+            c.stats["ilp"]["cons:" + (sp["cons"][0][0] if sp["cons"] else "none")] += 1
+            c.distinct.add(line)
+            if n >= 2 and k >= 2:
+                c.nontrivial.add(line)
+            # (1) correspondence of the formulation handed to the solver with the Lean formulation
+            if model is not None:
+                def close(a, b):
+                    return abs(a - b) <= 1e-9 * max(1.0, abs(a), abs(b))
+                want_rows = rm["rows"]
+                okf = len(model["rows"]) == len(want_rows) and model["nvars"] == n * k and model["integer"] and model["sense"] == "MIN"
+                if okf:
+                    for (coefs, sense, rhs), wr in zip(model["rows"], want_rows):
+                        wc = [float(_frac(x)) for x in wr["coeffs"]]
+                        if sense != wr["sense"] or not close(rhs, float(_frac(wr["rhs"]))) or \
+                                any(not close(coefs.get(j, 0.0), wc[j]) for j in range(n * k)):
+                            okf = False
+                            break
+                    wo = [float(_frac(x)) for x in rm["objective"]]
+                    if any(not close(model["objective"].get(j, 0.0), wo[j]) for j in range(n * k)) or not close(model["obj_const"], 0.0):
+                        okf = False
+                if not okf:
+                    c.disagreements.append({"stream": "ilp-formulation", "alg": "ilp", "case": {"vals": sp["vals"], "p": label}, "fmt": "dict_str", "outtype": PT,
+                                            "impl": {"rows": [[r_[0], r_[1], r_[2]] for r_ in model["rows"]], "objective": model["objective"]},
+                                            "model": rm, "request": "ilp_rows " + line})
+            c.sample({"request": "ilp_opt " + line, "impl": got, "model_optimum": om})
+            ctx.append((sp, line, label, got, om, names))
+        # (2) certified evaluation of the answers against the brute-force optimum of the formulation
+        def point_of(sp, got, names):
+            return "|".join("[" + ",".join(str(b.count(nm)) for b in got["bins"]) + "]" for nm in names) if names else "~"
+        for sp, line, label, got, om, names in ctx:
+            if not J._is_err(got) and len(got["bins"]) == sp["k"]:
+                point_reqs.append(f"ilp_point {line} counts={point_of(sp, got, names)}")
+            else:
+                point_reqs.append(None)
+        answers = iter(model_query([r for r in point_reqs if r]))
+        for (sp, line, label, got, om, names), pr in zip(ctx, point_reqs):
+            infeasible = isinstance(om, dict) and "none" in om
+            verdict = None
+            if pr is None:
+                if J._is_err(got):
+                    if got["error"] == "ValueError" and infeasible:
+                        verdict = None
+                    elif got["error"] == "ValueError":
+                        verdict = ("refused-feasible", f"ValueError although the optimum {om} exists")
+                    else:
+                        verdict = ("exception:" + got["error"], "raised " + got["error"])
+                else:
+                    verdict = ("bin-count", f"{len(got['bins'])} bins returned, {sp['k']} requested")
+            else:
+                pa = next(answers)
+                if infeasible:
+                    verdict = ("answered-infeasible", "a partition was returned although no partition satisfies the constraints")
+                elif not pa["feasible"]:
+                    verdict = ("infeasible-answer", "the returned partition violates the copies / ascending weighted sums / caller constraints")
+                elif _frac(pa["docvalue"]) != _frac(om):
+                    verdict = ("suboptimal", f"objective {pa['docvalue']} but the optimum of the formulation is {om}")
+                elif len(set(sp["weights"])) == 1 and got["sums"] != sorted(got["sums"]):
+                    verdict = ("not-ascending", f"sums {got['sums']} are not in non-decreasing order")
+                elif got["sums"] != [sum(sp["vals"][names.index(x)] for x in b) for b in got["bins"]]:
+                    verdict = ("inconsistent-sums", "reported sums differ from the bins")
+            c.stats["certified"]["evaluations"] += 1
+            if verdict and verdict[0] not in ("exception:TypeError",):
+                # tell a solver fault apart: the identical model re-solved with preprocessing off
+                cap2 = MipCapture()
+                with cap2:
+                    cap2.preprocess_off = True
+                    got2, _ = ilp_call(sp, cap2, names)
+                fine = False
+                if infeasible:
+                    fine = J._is_err(got2) and got2["error"] == "ValueError"
+                elif not J._is_err(got2) and len(got2["bins"]) == sp["k"]:
+                    pa2 = model_query([f"ilp_point {line} counts={point_of(sp, got2, names)}"])[0]
+                    fine = pa2["feasible"] and _frac(pa2["docvalue"]) == _frac(om)
+                if fine:
+                    c.solver_faults += 1
+                    c.notes.append(f"solver fault (CBC preprocessing): {line} -> {got}; correct with preprocess=0")
+                    verdict = None
+            if verdict:
+                c.fail("ilp", {"alg": "ilp", "vals": sp["vals"], "p": label}, "dict_str", PT, verdict[0], got, verdict[1])
+        # (3) equal weights never change the result (optimal objective value of the raw sums)
+        for sp, line, label, got, om, names in ctx[: c.n(80, 600)]:
+            if sp["weights_arg"] is not None or J._is_err(got) or sp["cons"]:
+                continue
+            w = rng.choice([2, 3, 7])
+            sp2 = dict(sp, weights_arg=[w] * sp["k"], weights=[w] * sp["k"])
+            got2, _ = ilp_call(sp2, cap, names)
+            ok = (not J._is_err(got2)) and obj_value(sp["obj"], got2["sums"]) == obj_value(sp["obj"], got["sums"])
+            if not ok and not J._is_err(got2):
+                with MipCapture() as cap3:      # solver fault?
+                    cap3.preprocess_off = True
+                    got3, _ = ilp_call(sp2, cap3, names)
+                if not J._is_err(got3) and obj_value(sp["obj"], got3["sums"]) == obj_value(sp["obj"], got["sums"]):
+                    c.solver_faults += 1
+                    ok = True
+            c.check_direct("ilp", dict(label, weights_arg=[w] * sp["k"]), "equal-weights-change-result", ok, got2,
+                           f"the same optimal value as without weights ({got['sums']})")
+    c.assumptions.append("CBC / python-mip returns an optimal feasible point of the model it is given or a non-OPTIMAL status; certified per run against the "
+                         "brute-force optimum of the Lean formulation; a wrong OPTIMAL answer that becomes right with preprocess=0 is counted as solver_fault")
+
+
+# ------------------------------------------------------------------------------------------------ C19
+def C19(c):
+    """unsatisfiable or malformed requests are refused with an error, never answered"""
+    rng = c.rng
+    packers = C.PACKERS + ["bin_completion"]
+    formats = ["list", "dict_str", "names_valueof"] if c.quick() else FORMATS
+
+    def judge(case, fmt, ot, got, names, ans):
+        B = case["p"]["B"]
+        if any(v > B for v in case["vals"]):
+            ok = J._is_err(got) and got["error"] == "ValueError"
+            return [(None, lambda a: None if ok else ("oversize-accepted", f"an item exceeds the bin size {B} but the call returned {json.dumps(got, default=str)[:200]} instead of raising ValueError"))]
+        return []
+
+    # oversize item at every position of every list of the scope, 1-3 copies
+    cases = []
+    for B in c.n([4, 7], [4, 6, 7]):
+        for ms in gen.multisets(range(0, B + 1), c.n(3, 4), min_len=0):
+            for pos in range(len(ms) + 1):
+                for mult in (1, 2, 3):
+                    vals = list(ms)
+                    for j in range(mult):
+                        vals.insert(min(pos + 2 * j, len(vals)), B + 1 + (j % 2))
+                    for a in packers:
+                        cases.append({"alg": a, "vals": vals, "p": {"B": B}})
+    c.exhaustive_scopes.append(f"every multiset of <= {c.n(3,4)} values 0..B with 1-3 oversize items inserted at every position, B in {c.n([4,7],[4,6,7])}, 5 packers")
+    ots = OUTTYPES
+
+    def combos(case, rng_):
+        return [(f, o) for f in formats for o in (ots if len(case["vals"]) <= 3 else [rng_.choice(ots)])]
+    c.corr("oversize-exhaustive", cases, combos, judge=judge)
+    rnd = C.random_pack_cases(rng, packers, c.n(150, 1500), oversize=1.0)
+    c.corr("oversize-random", rnd, lambda case, r: [(f, r.choice(ots)) for f in FORMATS], judge=judge)
+    # feasible requests are NOT refused (the other direction of the iff)
+    okc = C.random_pack_cases(rng, packers, c.n(100, 1000), oversize=0.0)
+
+    def judge_ok(case, fmt, ot, got, names, ans):
+        if any(v > case["p"]["B"] for v in case["vals"]):
+            return []
+        return [(None, lambda a: ("refused-feasible", "raised " + got["error"]) if J._is_err(got) else None)]
+    c.corr("feasible-not-refused", okc, combos_of(["list"], [PT]), judge=judge_ok)
+
+    # ---------- cbldm argument validation: every single-invalid-argument combination
+    triples = []
+
+    def cb_call(vals, k, tl, pd, fmt):
+        def thunk():
+            names = names_for(fmt, [abs(v) for v in vals], random.Random(sha([vals, fmt])))
+            if fmt in ("list", "array"):
+                items, vo = list(vals), None
+            else:
+                d = {nm: v for nm, v in zip(names, vals)}
+                items, vo = (d, None) if fmt.startswith("dict") else (list(names), d.__getitem__)
+            kw = {} if vo is None else {"valueof": vo}
+            if tl != "default":
+                kw["time_limit"] = tl
+            if pd != "default":
+                kw["partition_difference"] = pd
+            try:
+                prtpy.partition(algorithm=prt.cbldm, numbins=k, items=items, outputtype=out.Sums, **kw)
+                return {"ok": True}
+            except Exception as e:     # noqa
+                return {"error": exc_name(e)}
+        return thunk
+
+    def pd_enc(pd):
+        if pd == "default":
+            return "int:1000000"
+        if isinstance(pd, bool) or not isinstance(pd, int):
+            return "float:" + ("1" if pd < 1 else "0")
+        return f"int:{pd}"
+
+    def add(vals, k, tl, pd, fmt, what):
+        tlp = 1 if (tl == "default" or tl > 0) else 0
+        line = f"cbldm_validate k={k} tl={tlp} pd={pd_enc(pd)} vals=[{','.join(str(v) for v in vals)}]"
+        triples.append((line, cb_call(vals, k, tl, pd, fmt), {"alg": "cbldm", "vals": vals, "k": k, "time_limit": tl, "partition_difference": pd, "fmt": fmt, "invalid": what}))
+
+    base_vals = [[5], [3, 1], [4, 4, 2], [7, 0, 3, 3], [9, 8, 7, 6, 5]] + [gen.rand_vals(rng, rng.randint(1, 8)) for _ in range(c.n(6, 40))]
+    for vals in base_vals:
+        for fmt in ["list", "dict_str", "names_valueof"]:
+            add(vals, 2, "default", "default", fmt, None)
+            add(vals, 2, 5, 1, fmt, None)
+            add(vals, 2, 0.5, len(vals), fmt, None)
+            for k in (0, 1, 3, 4, 7):
+                add(vals, k, "default", "default", fmt, "numbins")
+            for tl in (0, -1, -0.5, 0.0):
+                add(vals, 2, tl, "default", fmt, "time_limit")
+            for pd in (0, -1, -5, 1.5, 2.0, 0.5, 0.0):
+                add(vals, 2, "default", pd, fmt, "partition_difference")
+            for pos in range(len(vals)):
+                neg = list(vals); neg[pos] = -1 - neg[pos]
+                add(neg, 2, "default", "default", fmt, "negative item")
+    c.exhaustive_scopes.append("cbldm: every single invalid argument (numbins in 0,1,3,4,7; time_limit in 0,-1,-0.5,0.0; partition_difference in 0,-1,-5,1.5,2.0,0.5,0.0; "
+                               "a negative item at every position) x list/dict/names+valueof, plus valid argument combinations")
+    c.direct("cbldm-arguments", triples, nontrivial=lambda label, ans: label["invalid"] is not None)
+    for line, thunk, label in triples:
+        got = thunk()
+        if label["invalid"]:
+            c.check_direct("cbldm", label, "invalid-argument-accepted", got == {"error": "ValueError"}, got, f"ValueError for an invalid {label['invalid']}")
+        else:
+            c.check_direct("cbldm", label, "valid-argument-refused", got == {"ok": True}, got, "no error for valid arguments")
+    # ---------- the sums-only manager refuses to count items
+    from prtpy.binners import BinnerKeepingSums, BinnerKeepingContents
+    tr = []
+    for k in range(1, 5):
+        for i in range(k):
+            def t_s(k=k, i=i):
+                bk = BinnerKeepingSums()
+                b = bk.new_bins(k); bk.add_item_to_bin(b, 3, i)
+                return num(bk.numitems(b, i))
+            def t_c(k=k, i=i):
+                bk = BinnerKeepingContents()
+                b = bk.new_bins(k); bk.add_item_to_bin(b, 3, i); bk.add_item_to_bin(b, 4, i)
+                return num(bk.numitems(b, i))
+            bins_s = "|".join("[3]" if j == i else "[]" for j in range(k))
+            bins_c = "|".join("[3,4]" if j == i else "[]" for j in range(k))
+            tr.append((f"numitems contents=0 bins={bins_s} i={i}", t_s, {"alg": "BinnerKeepingSums.numitems", "vals": [3], "k": k, "i": i}))
+            tr.append((f"numitems contents=1 bins={bins_c} i={i}", t_c, {"alg": "BinnerKeepingContents.numitems", "vals": [3, 4], "k": k, "i": i}))
+    c.direct("numitems", tr)
+    for line, thunk, label in tr:
+        if label["alg"].startswith("BinnerKeepingSums"):
+            try:
+                got = thunk()
+            except NotImplementedError:
+                got = "NotImplementedError"
+            except Exception as e:     # noqa
+                got = exc_name(e)
+            c.check_direct(label["alg"], label, "invented-count", got == "NotImplementedError", got, "NotImplementedError: the sums-only manager does not know the number of items")
+
+
+# ------------------------------------------------------------------------------------------------ C18
+def C18(c):
+    """results respect problem symmetries; exact solvers agree beyond oracle size"""
+    rng = c.rng
+    from engine import impl_map
+    SORTING = ["greedy", "roundrobin", "multifit", "kk", "ffd", "bfd"] + C.COVERS
+    EXACT = ["cg", "ckk", "snp", "rnp", "dp", "ilp", "cbldm"]
+    base = C.random_part_cases(rng, ["greedy", "roundrobin", "multifit", "kk"], c.n(60, 600), nmax=20)
+    base += C.random_pack_cases(rng, C.PACKERS, c.n(60, 600))
+    base += C.random_cover_cases(rng, C.COVERS, c.n(60, 600))
+    ex = C.random_part_cases(rng, EXACT, c.n(40, 400), objs=C.OBJS5)
+    ex = [e for e in ex if not (e["alg"] == "rnp" and e["p"]["k"] >= 6)]
+    for e in ex:
+        if e["alg"] == "cbldm":
+            e["p"]["d"] = None
+    base += ex
+    base = [e for e in base if not any(v > e["p"].get("B", 10 ** 9) for v in e["vals"]) and e["vals"]]
+
+    def value_of(case, got):
+        """what the symmetry speaks about: the sums (heuristics) or the optimal value (exact algorithms)"""
+        if J._is_err(got) or J._is_none(got):
+            return got
+        a = case["alg"]
+        if a in EXACT:
+            o = "diff" if a in ("ckk", "snp", "rnp", "cbldm") else case["p"]["obj"]
+            return obj_value(o, got["sums"])
+        return got["sums"] if a in SORTING else sorted(got["sums"])
+
+    variants, plan = [], []
+    for e in base:
+        a = e["alg"]
+        # permutation
+        pv = list(e["vals"]); rng.shuffle(pv)
+        if a in SORTING or a in EXACT:
+            plan.append(("perm", e, {"alg": a, "vals": pv, "p": dict(e["p"])}, 1))
+        # scaling
+        f = rng.choice([2, 4, 1024] if a == "multifit" else [2, 3, 7, 10, 1024])
+        if not (a == "ilp" and max(e["vals"]) * f > 200) and not (a == "dp" and sum(e["vals"]) * f > 3000):
+            p2 = dict(e["p"])
+            if "B" in p2:
+                p2["B"] *= f
+            plan.append(("scale", e, {"alg": a, "vals": [v * f for v in e["vals"]], "p": p2}, f))
+        # zeros
+        if a in EXACT:
+            z = rng.randint(1, 3)
+            zv = list(e["vals"])
+            for _ in range(z):
+                zv.insert(rng.randrange(len(zv) + 1), 0)
+            if len(zv) <= C.max_n(a) + 3:
+                plan.append(("zeros", e, {"alg": a, "vals": zv, "p": dict(e["p"])}, 1))
+    allcases = base + [t[2] for t in plan]
+    results = {}
+
+    def judge(case, fmt, ot, got, names, ans):
+        results[id(case)] = got
+        return []
+    c.corr("base-and-variants", allcases, combos_of(["list"], [PT]), judge=judge)
+    for kind, e, var, f in plan:
+        g0, g1 = results.get(id(e)), results.get(id(var))
+        if g0 is None or g1 is None:
+            continue
+        v0, v1 = value_of(e, g0), value_of(var, g1)
+        if kind == "scale" and not isinstance(v0, dict):
+            v0 = [x * f for x in v0] if isinstance(v0, list) else v0 * f
+        label = dict(var["p"], vals=var["vals"], alg=e["alg"], base_vals=e["vals"], transformation=kind, factor=f)
+        c.check_direct(e["alg"], label, "symmetry:" + kind, v0 == v1, v1,
+                       f"{v0} (from the untransformed input {e['vals']}: {json.dumps(g0, default=str)[:120]})")
+        c.stats["metamorphic"][kind] += 1
+    # ---------- agreement of the exact algorithms beyond oracle size; never worse than a heuristic
+    agree = []
+    for _ in range(c.n(10, 80)):
+        n = rng.randint(11, c.n(12, 16))
+        k = rng.randint(2, c.n(3, 5))
+        vals = [rng.randint(1, 60) for _ in range(n)]
+        for o in rng.sample(C.OBJS3, c.n(1, 3)):
+            algs = ["cg", "dp", "ilp"] + (["ckk", "snp", "rnp"] if o == "diff" and k <= 4 else [])
+            if k >= 4 and n >= 14:
+                algs = [a for a in algs if a not in ("dp",)]
+            grp = []
+            for a in algs:
+                p = {"k": k}
+                if a == "cg":
+                    p.update(lb=1, fast=1, h3=0, seen=1, obj=o, cut=None)
+                if a in ("dp", "ilp"):
+                    p["obj"] = o
+                grp.append({"alg": a, "vals": list(vals), "p": p})
+            for a in ("greedy", "kk", "multifit", "roundrobin"):
+                grp.append({"alg": a, "vals": list(vals), "p": ({"k": k, "it": 10} if a == "multifit" else {"k": k})})
+            agree.append((o, grp))
+    flat = [(g, "list", PT, list(g["vals"])) for o, grp in agree for g in grp]
+    res = iter(impl_map(flat, serial_below=2))
+    for o, grp in agree:
+        vals_by = {}
+        for g in grp:
+            got = next(res)
+            c.evaluations += 1
+            c.stats["agreement"]["calls"] += 1
+            label = dict(g["p"], vals=g["vals"], alg=g["alg"], objective=o)
+            if J._is_err(got) or J._is_none(got):
+                c.check_direct(g["alg"], label, "exception:" + str(got.get("error", "none")), False, got, "a partition")
+                continue
+            ok_multifit = g["alg"] != "multifit" or len(got["sums"]) == g["p"]["k"]
+            if ok_multifit:
+                vals_by[g["alg"]] = obj_value(o, got["sums"])
+        exact_vals = {a: v for a, v in vals_by.items() if a in EXACT}
+        if exact_vals:
+            ref = min(exact_vals.values())
+            for a, v in exact_vals.items():
+                c.check_direct(a, {"vals": grp[0]["vals"], "k": grp[0]["p"]["k"], "alg": a, "objective": o}, "exact-disagree", v == ref, v,
+                               f"the value {ref} reported by another exact algorithm ({exact_vals})")
+            for a, v in vals_by.items():
+                if a not in EXACT:
+                    c.check_direct(a, {"vals": grp[0]["vals"], "k": grp[0]["p"]["k"], "alg": a, "objective": o}, "heuristic-beats-exact", ref <= v, v,
+                                   f"no heuristic can beat the exact optimum {ref}")
+    c.distinct.update(("agree", tuple(g[1][0]["vals"]), g[0]) for g in agree)
+    c.nontrivial.update(("agree", tuple(g[1][0]["vals"]), g[0]) for g in agree)
+
+
+# ------------------------------------------------------------------------------------------------ C15
+def C15(c):
+    """calls are pure: inputs untouched, results repeatable, no state across calls"""
+    rng = c.rng
+    from engine import impl_map
+    pool_cases = all_algs_cases(c, rng, c.n(12, 60))
+    pool_cases += C.random_pack_cases(rng, C.PACKERS + ["bin_completion"], c.n(6, 30), oversize=1.0)          # failing calls
+    pool_cases += [{"alg": "cbldm", "vals": gen.rand_vals(rng, 4), "p": {"k": 3, "d": None, "cut": None}} for _ in range(c.n(4, 20))]   # ValueError
+    pool_cases += [{"alg": "rnp", "vals": gen.rand_vals(rng, 7, "small"), "p": {"k": 6}} for _ in range(c.n(3, 10))]                  # KF1 calls interleaved
+    pool_cases += [{"alg": "cg", "vals": gen.rand_vals(rng, 6, "small"), "p": dict(rng.choice(C.SWITCHES), k=3, obj=rng.choice(C.OBJS3), cut=rng.randint(0, 30))}
+                   for _ in range(c.n(10, 50))]                                                                  # interrupted anytime runs
+    calls = []
+    for e in pool_cases:
+        fmt = rng.choice(FORMATS)
+        ot = rng.choice(OUTTYPES)
+        names = names_for(fmt, e["vals"], random.Random(sha([e["vals"], fmt])))
+        calls.append((e, fmt, ot, names))
+    # reference: every call in a fresh worker process state (forked before this process runs any history)
+    ref = impl_map(calls, serial_below=0)
+    # model answers for the modelled calls
+    lines, idx = [], {}
+    for j, (e, fmt, ot, names) in enumerate(calls):
+        alg = ALGS[e["alg"]]
+        if alg.relation or (alg.unmodelled and alg.unmodelled(e, fmt)):
+            continue
+        ids = ids_for(fmt, e["vals"], names)
+        idx[j] = (len(lines), {i: nm for i, nm in zip(ids, names)})
+        lines.append(alg.request(e, ids, ot not in SUMS_ONLY))
+    answers = model_query(lines)
+    # histories: random call sequences in THIS interpreter
+    n_hist = c.n(6, 40)
+    for hno in range(n_hist):
+        L = rng.randint(20, c.n(120, 200))
+        seq = [rng.randrange(len(calls)) for _ in range(L)]
+        # repeat some calls back to back (repeatability) and bracket some by failing calls
+        for _ in range(L // 10):
+            pos = rng.randrange(len(seq)); seq.insert(pos, seq[pos])
+        first_seen = {}
+        for step, j in enumerate(seq):
+            e, fmt, ot, names = calls[j]
+            mut = []
+            got = ALGS[e["alg"]].call_impl(e, fmt, ot, names, mutation=mut)
+            c.evaluations += 1; c.corr_cases += 1
+            c.stats["histories"]["calls"] += 1
+            c.stats["histories"]["alg:" + e["alg"]] += 1
+            if J._is_err(got):
+                c.stats["histories"]["error:" + got["error"]] += 1
+            label = dict(e["p"], vals=e["vals"], alg=e["alg"], fmt=fmt, outtype=ot, history=hno, step=step,
+                         preceding_calls=[calls[q][0]["alg"] for q in seq[max(0, step - 5):step]])
+            key = (e["alg"], json.dumps(e["p"], sort_keys=True, default=str), tuple(e["vals"]), fmt, ot)
+            c.distinct.add(key)
+            if len(e["vals"]) >= 2:
+                c.nontrivial.add(key)
+            c.check_direct(e["alg"], label, "input-modified", not mut, mut, "the argument is left exactly as it was given")
+            same_ref = got == ref[j] or (e["alg"] == "ilp" and not J._is_err(got) and not J._is_err(ref[j]))
+            c.check_direct(e["alg"], label, "history-dependent", same_ref, got, f"the result of the same call in a fresh state: {json.dumps(ref[j], default=str)[:200]}")
+            if j in first_seen:
+                c.check_direct(e["alg"], label, "not-repeatable", got == first_seen[j] or e["alg"] == "ilp", got, f"identical to the earlier identical call: {json.dumps(first_seen[j], default=str)[:200]}")
+            first_seen.setdefault(j, got)
+            if j in idx:
+                k_, by_id = idx[j]
+                want = project_model(answers[k_], ot, by_id)
+                if got != want:
+                    c.disagreements.append({"stream": "histories", "alg": e["alg"], "case": e, "fmt": fmt, "outtype": ot, "impl": got, "model": want,
+                                            "request": lines[k_] + f"  (history {hno}, step {step})"})
+        c.sample({"history": hno, "length": len(seq), "first_calls": [f"{calls[q][0]['alg']}/{calls[q][1]}/{calls[q][2]}" for q in seq[:8]]})
+
+
+SUITES = {"C01": C01, "C02": C02, "C03": C03, "C04": C04, "C05": C05, "C06": C06, "C07": C07, "C08": C08, "C09": C09, "C10": C10, "C11": C11, "C12": C12, "C13": C13, "C14": C14, "C15": C15, "C16": C16, "C17": C17, "C18": C18, "C19": C19, "C20": C20}
+
+LEVELS = {"C15": "other"}
+FINISH = {"C15": {"explanation": "Purity is definitional for the Lean model (a total function of the call's arguments). What decides the property for the code is "
+                                     "refinement testing over call histories: seeded random sequences of calls in one interpreter (all algorithms, formats, output types, "
+                                     "failing and interrupted calls interleaved); every result is compared with the model's answer for that call alone and with the result of the "
+                                     "same call in a fresh worker process, every repeated call with its first occurrence, and every argument object with a deep copy taken before the call. "
+                                     "Interpreter-level state (module globals, shared counters) is not expressible in the model and is covered only by these differential runs (PARTIAL)."}}
 
 
 def replay(c, rp):
